@@ -195,6 +195,15 @@ type c17case struct {
 	Bin     bool   `json:"bin,omitempty"`     // also run the obiconvert binary on the faulted file
 }
 
+// c17cutName names the cut point of a truncation for the keys of the "accepted although truncated"
+// verdict: the number of bytes removed when it is small, "body" otherwise.
+func c17cutName(total, pos int) string {
+	if n := total - pos; n <= 32 {
+		return fmt.Sprintf("last-%d-bytes-removed", n)
+	}
+	return "body"
+}
+
 func (c c17case) String() string {
 	s := fmt.Sprintf("%s.%s driver=%s fault=%s pos=%d", c.Base, c.Codec, c.Driver, c.Fault, c.Pos)
 	if c.ErrKind != "" {
@@ -1247,6 +1256,13 @@ func TestVerifC17(t *testing.T) {
 					if c.Fault == "none" {
 						r.Count("control_ok", 1)
 					}
+					if c.Fault == "trunc" {
+						// the statement: an input cut short AT ANY BYTE POSITION is reported, even when
+						// every record could still be decoded (trailer / index / footer missing)
+						r.Count("truncated_but_accepted_with_all_records", 1)
+						r.Violate(fmt.Sprintf("%s/truncation/accepted-although-truncated:%s:%s", drv, c.Codec, c17cutName(len(img), c.Pos)),
+							fmt.Sprintf("%s: the compressed file is cut at %d of %d bytes, reading succeeds silently (all %d records decoded, no error, no fatal)", c, c.Pos, len(img), resp.NRec), c)
+					}
 				} else {
 					inproc = "success-partial"
 					r.Count("silent_partial", 1)
@@ -1289,6 +1305,10 @@ func TestVerifC17(t *testing.T) {
 					r.Violate(fmt.Sprintf("obiconvert/%s/hang", fault), fmt.Sprintf("%s: obiconvert <file> did not end within 360 s (second attempt)", c), c)
 				case br.exit == 0 && br.equal:
 					bcl = "success-full"
+					if c.Fault == "trunc" {
+						r.Violate(fmt.Sprintf("obiconvert/truncation/accepted-although-truncated:%s:%s", c.Codec, c17cutName(len(img), c.Pos)),
+							fmt.Sprintf("%s: the compressed file is cut at %d of %d bytes, `obiconvert <file>` exits 0 (all records written)", c, c.Pos, len(img)), c)
+					}
 				case br.exit == 0:
 					bcl = "success-partial"
 					r.Violate(fmt.Sprintf("obiconvert/%s/exit0-partial:%s", fault, label),
@@ -1323,6 +1343,10 @@ func TestVerifC17(t *testing.T) {
 				r.Count("stdin_exit0_full", 1)
 				if c.Fault == "none" {
 					r.Count("control_ok", 1)
+				}
+				if c.Fault == "trunc" {
+					r.Violate(fmt.Sprintf("obiconvert-stdin/truncation/accepted-although-truncated:%s:%s", c.Codec, c17cutName(len(img), c.Pos)),
+						fmt.Sprintf("%s: the compressed stream is cut at %d of %d bytes, `obiconvert < file` exits 0 (all records written)", c, c.Pos, len(img)), c)
 				}
 			case br.exit == 0:
 				r.Count("silent_partial", 1)
